@@ -1,4 +1,5 @@
 pub mod gen;
+pub mod isolate;
 pub mod model;
 pub mod props;
 pub mod runner;
